@@ -35,7 +35,7 @@ func init() {
 func genC06(ctx *fw.Ctx) []fw.Case {
 	var cases []fw.Case
 	rng := ctx.Rand("c06")
-	n := ctx.Pick(1500, 25000)
+	n := ctx.Pick(1500, 100000)
 	for i := 0; i < n; i++ {
 		seed := rng.Int63()
 		cases = append(cases, fw.Case{ID: fmt.Sprintf("mgen/%d", seed), Run: func(r *fw.Rec) { c06Mgen(r, seed) }})
